@@ -75,7 +75,13 @@ LOCS = [
     "names = ('é', b, c,)\nm = ['ü', d, e, ]\nk = {'ß': 1, 'x': 2, }\nf('é', g, h,)",
     "del á, b, c\nglobal é, x, y\nimport ñ, o, p\nwith ü as v, w as z,: pass" if False else "del á, b, c\nglobal é, x, y\nimport ñ, o, p",
 ]
-PROGS = BASE + EXTRA + TRICKY + PARS + LOCS
+MULTILINE = [  # constructs whose shared delimiters span lines (solo generator arguments, undelimited tuples in subscripts)
+    "t = sum(\n    x*x\n    for x in xs\n)\nu = any(x\n  for x in xs)",
+    "r = x[a,\n  'é', b]\nq = y[\n  'üü',\n  c\n]",
+    "f(i\n  for i in 'é'\n  if i)(j for\n j in k)",
+    "class C(B,\n   metaclass=M\n): pass\n@d(a for a\n  in b)\ndef g(): pass",
+]
+PROGS = BASE + EXTRA + TRICKY + PARS + LOCS + MULTILINE
 for _p in PROGS:
     ast.parse(_p)
 
@@ -404,8 +410,89 @@ def _fst_of(root, tree, node):
     return None
 
 
+# ---- roots of fragment parses: undelimited multi-line sequences (parsed by pfst inside synthetic delimiters) -------------------
+FRAG_ELTS = {'expr': ['a', '"é"', 'b[0]', '*s'], 'pattern': ['a', '"é"', 'b.c', '*_']}
+FRAG_SEPS = [', ', ',\n', ',\n  ', ',  # é\n', ' ,\n\n']
+
+
+def frag_cases(kind):
+    import itertools
+    for n in (2, 3):
+        for es in itertools.product(FRAG_ELTS[kind], repeat=n):
+            if sum(e.startswith('*') for e in es) > 1:
+                continue
+            for seps in itertools.product(FRAG_SEPS, repeat=n - 1):
+                text, spans = '', []
+                for k, e in enumerate(es):
+                    spans.append((len(text), len(text) + len(e)))
+                    text += e + (seps[k] if k < n - 1 else '')
+                yield text, spans
+
+
+def check_fragments(fst, kind, part, res):
+    """Locations of a fragment root and its elements, judged by the text alone: the root of an undelimited sequence spans first
+    to last element, every element's location is exactly its text, byte coordinates are the UTF-8 offsets of the char columns."""
+    for ci, (text, spans) in enumerate(frag_cases(kind)):
+        if ci % part[1] != part[0]:
+            continue
+        lines = text.split('\n')
+        starts = [0]
+        for l in lines:
+            starts.append(starts[-1] + len(l) + 1)
+
+        def lc(off):
+            ln = max(i for i in range(len(lines)) if starts[i] <= off)
+            return ln, off - starts[ln]
+
+        def loc4(a, b):
+            return lc(a) + lc(b)
+
+        for mode in (('expr', 'Tuple') if kind == 'expr' else ('pattern',)):
+            cid = f'C06/frag/{kind}/{text!r}/mode={mode}'
+            rep = {'frag': kind, 'text': text}
+            res.evals += 1
+            res.transitions += 1
+            res.state(text, mode)
+            try:
+                root = fst.FST(text, mode)
+            except Exception:  # noqa: BLE001  (acceptance is C05's business)
+                res.outcomes['fragment-refused'] += 1
+                continue
+            kids = getattr(root.a, 'elts', None) or getattr(root.a, 'patterns', None) or []
+            if len(kids) != len(spans):
+                res.outcomes['fragment-other-shape'] += 1
+                continue
+            res.traces += 1
+            checks = [('root', root, (spans[0][0], spans[-1][1]))] + [(f'elt{k}', kid.f, sp) for k, (kid, sp) in enumerate(zip(kids, spans))]
+            ok = True
+            for name, f, (a, b) in checks:
+                want = loc4(a, b)
+                got = tuple(f.loc)
+                if got != want:
+                    res.fail(cid + '/' + name, 'loc-differs-from-text-extent', f'fragment={text!r} mode={mode} {name}: got={got} want={want}',
+                             {'mode': mode}, rep)
+                    ok = False
+                    break
+                wb = (want[0] + 1, O.char2byte(lines[want[0]], want[1]), want[2] + 1, O.char2byte(lines[want[2]], want[3]))
+                gb = (f.a.lineno, f.a.col_offset, f.a.end_lineno, f.a.end_col_offset)
+                if gb != wb:
+                    res.fail(cid + '/' + name, 'byte-coordinates-differ-from-text-extent',
+                             f'fragment={text!r} mode={mode} {name}: got={gb} want={wb}', {'mode': mode}, rep)
+                    ok = False
+                    break
+                if f.src != text[a:b]:
+                    res.fail(cid + '/' + name, 'src-not-text-at-loc', f'fragment={text!r} mode={mode} {name}: got={f.src!r} want={text[a:b]!r}',
+                             {'mode': mode}, rep)
+                    ok = False
+                    break
+            if ok:
+                res.nontriv(text, mode)
+                res.outcomes['fragment-locs-ok'] += 1
+
+
 def shards(tier):
     out = [{'prog': i} for i in range(len(PROGS))]
+    out += [{'frag': k, 'part': [r, 4]} for k in ('expr', 'pattern') for r in range(4)]
     if tier == 'thorough':
         import glob
         import os
@@ -421,10 +508,22 @@ def run_shard(desc, tier, res):
             src = fh.read()
         check_program(fst, 'file:' + desc['file'].rsplit('/', 1)[-1], src, tier, res, rects=False)
         return
+    if 'frag' in desc:
+        check_fragments(fst, desc['frag'], desc['part'], res)
+        return
     check_program(fst, desc['prog'], PROGS[desc['prog']], tier, res)
     res.sample({'program': PROGS[desc['prog']]})
 
 
 def replay(rep, res):
     import fst
+    if 'frag' in rep:
+        global frag_cases
+        orig = frag_cases
+        frag_cases = lambda kind: [c for c in orig(kind) if c[0] == rep['text']]  # noqa: E731
+        try:
+            check_fragments(fst, rep['frag'], [0, 1], res)
+        finally:
+            frag_cases = orig
+        return
     check_program(fst, rep['prog'], PROGS[rep['prog']], 'quick', res)
